@@ -121,28 +121,45 @@ def main(repo, _out=None):
         f141_fixed = False
         unrec.append("add_fields: key type of the re-parsed map not recognised")
 
-    # ---- JsonVisitor
+    # ---- JsonVisitor: per `record_*` method, with the inherent helper functions it calls resolved (`self.f(` / `Self::f(`),
+    #      does it key on the field's name, strip a leading `r#`, skip `log.*` names (and only under the tracing-log feature,
+    #      as the first arm)?
     jv = impl_body(src, r"impl\s+field::Visit\s+for\s+JsonVisitor\s*<'_>\s*\{", unrec, "impl field::Visit for JsonVisitor")
     jfns = fns_in(jv)
+    helpers = {}
+    for _m, hb, _s, _e in find_blocks(src, r"impl\s*<'a>\s*JsonVisitor\s*<'a>\s*\{"):
+        for hn, (_sig, hbody) in fns_in(hb).items():
+            helpers[hn] = hbody or ""
+
+    def effective(body):
+        seen, out, todo = set(), body or "", [body or ""]
+        while todo:
+            cur = todo.pop()
+            for hn in re.findall(r"(?:self\.|Self::)(\w+)\s*\(", cur):
+                if hn in helpers and hn not in seen:
+                    seen.add(hn)
+                    out += "\n" + helpers[hn]
+                    todo.append(helpers[hn])
+        return out
     jv_methods = sorted(jfns)
-    jv_strip = sorted(n for n, (_s, b) in jfns.items() if b and 'starts_with("r#")' in b)
-    for n, (_s, b) in jfns.items():
-        if n != "record_debug" and b and "field.name()" not in b:
+    eff_body = {n: effective(b) for n, (_s, b) in jfns.items()}
+    jv_strip = sorted(n for n, b in eff_body.items() if 'starts_with("r#")' in b)
+    jv_log = sorted(n for n, b in eff_body.items() if 'starts_with("log.")' in b)
+    for n, b in eff_body.items():
+        if "field.name()" not in b:
             unrec.append("JsonVisitor::%s does not key on field.name()" % n)
+        if 'starts_with("r#")' in b and not re.search(r'name if name\.starts_with\("r#"\) => (\{ self\.values \.insert\(&name\[2\.\.\],|Some\(&name\[2\.\.\]\))', norm(b)):
+            unrec.append("JsonVisitor::%s: the `r#` arm does not store under the name without its first two bytes" % n)
+        if 'starts_with("log.")' in b and not re.search(
+                r'match field\.name\(\) \{\s*#\[cfg\(feature = "tracing-log"\)\]\s*name if name\.starts_with\("log\."\) => (\(\)|None),', norm(b)):
+            unrec.append("JsonVisitor::%s: the `log.` arm is not the first arm, cfg(feature = \"tracing-log\")-gated and empty" % n)
+        if ".insert(" not in b or "self.values" not in norm(b).replace("self .values", "self.values"):
+            unrec.append("JsonVisitor::%s does not insert into self.values" % n)
     fin = impl_body(src, r"impl\s+crate::field::VisitOutput<fmt::Result>\s+for\s+JsonVisitor\s*<'_>\s*\{", unrec, "impl VisitOutput for JsonVisitor")
     if "for (k, v) in self.values" not in norm(fin):
         unrec.append("JsonVisitor::finish does not iterate self.values (BTreeMap order)")
     if not re.search(r"values\s*:\s*BTreeMap<", src):
         unrec.append("JsonVisitor.values is not a BTreeMap")
-
-    jv_log = []
-    for n, (_s, b) in jfns.items():
-        if b and 'starts_with("log.")' in b:
-            jv_log.append(n)
-            nb = norm(b)
-            if not re.search(r'match field\.name\(\) \{\s*#\[cfg\(feature = "tracing-log"\)\]\s*name if name\.starts_with\("log\."\) => \(\),', nb):
-                unrec.append("JsonVisitor::%s: the `log.` arm is not the first arm, cfg(feature = \"tracing-log\")-gated and empty" % n)
-    jv_log = sorted(jv_log)
 
     # ---- span-lifecycle records (fmt_subscriber.rs)
     p_sub = os.path.join(repo, "tracing-subscriber/src/fmt/fmt_subscriber.rs")
